@@ -83,7 +83,7 @@ CHECKS.update({
                     "to the default value itself or another value, x environment overrides), that defaults fill, explicit values survive, the "
                     "environment wins and a second application changes nothing; ConfigGet.tla does the same for the derived Couchbase-metadata / "
                     "membership / leader-election records under override maps; DataUnit.tla for size strings with exact integer arithmetic; "
-                    "EnvSubst.tla for ${VAR} layouts. Every initial state prints a table row; vfunc replays the rows into the real config.Dcp, the real "
+                    "EnvSubst.tla for ${VAR} layouts (incl. literal dollar signs and shell-style $NAME text around the placeholders). Every initial state prints a table row; vfunc replays the rows into the real config.Dcp, the real "
                     "getters, helpers.ResolveUnionIntOrStringValue and newDcpConfig (a YAML file per row); MonConfig.tla (TLC) judges what they returned.",
             "ref": "6/C17", "note": "pure functions: TLA+ decides a transcription, the binding is table replay; two representative values per option; sizes "
                     "beyond 2 GiB do not fit TLC's 32-bit integers",
@@ -104,7 +104,7 @@ CHECKS.update({
             "technique": "TLA+ transcription model-checked exhaustively (TLC) + table replay into the real function + TLC re-check of its outputs"},
     "C16": {"text": "Scrape / ScrapeRet are actions of Core.tla enabled at any point (incl. while the stream is closed, while a delivery is "
                     "held by the consumer, mid-rebalance); the C16 monitor recomputes from the observable history what every gauge and "
-                    "counter must show (tracked position and its snapshot, lag = max(0, high - seq) against the high seqnos handed to that "
+                    "counter must show (tracked position and its snapshot, lag = max(0, high - seq) against the high seqnos handed to that (any subset of them stale, i.e. below the tracked position) "
                     "scrape, total lag, accepted mutations/deletions/expirations, member / group size / range of the session, active "
                     "streams, completed rebalances); TLC checks Core against it exhaustively and on the metrics the REAL "
                     "metric.NewMetricCollector(...).Collect returned in TLC-generated schedules. The event handler of the rig also scrapes from "
@@ -133,14 +133,17 @@ CHECKS.update({
     "C19": {"text": "HealthCheck.tla models run / performHealthCheck / Start / Stop at the granularity of the client's Ping call; TLC checks "
                     "exhaustively (two rounds, every pattern, Stop anywhere) that the process dies exactly on five consecutive failures of "
                     "a round, that Stop returns and that no ping follows it; all 2^5 round patterns, second rounds and Stop positions are "
-                    "executed on the real health checker (one process each, fail-stop observed as process death) and the same monitor is "
+                    "executed on the real health checker (one process each, fail-stop observed as process death; a run that should have died and did not is judged on what the process then does) and the same monitor is "
                     "evaluated by TLC on the recorded events.",
             "ref": "6/C19", "note": "fake client; the 1 s retry wait and the ticker are real time (25 ms interval); Stop before Start not explored",
             "technique": "TLA+ model checking (TLC) + exhaustive pattern replay on real code + TLC trace monitor"},
     "C11": {"text": "lifecycle part of Core.tla (notifications from bus, API and re-armed timer; rebalance lock; Close up to "
                     "per-vBucket CloseStream; timers; re-open through Load/SeqNos/OpenStream; wait goroutines and finish tokens) "
                     "checked exhaustively against the bracket grammar of callbacks, one close per burst, range of the most "
-                    "recent membership, no delivery while closed, no stop by a rebalance; real dcp.Start/close + stream code "
+                    "recent membership, no delivery while closed, no stop by a rebalance (with HoldCb the handler of "
+                    "AfterRebalanceEnd takes time: the next rebalance blocks on the rebalance lock and must not begin before the handler has returned; "
+                    "invariant ReopenArmed: in the delay phase the timer the stream holds is armed and re-opens - the rig reports Stalled when a closed "
+                    "stream is not reopened however often the timers are fired); real dcp.Start/close + stream code "
                     "driven through the same schedules. Found F5 and F2 (repaired), F6 and F8 (known findings).",
             "ref": "6/C11", "note": _A + "; the rebalance delay itself is not timed (timers are fired by the driver)", "technique": _T},
     "C12": {"text": "stream ends of every cause as environment actions in Core.tla: transient => re-open from the latest settled "
@@ -149,7 +152,8 @@ CHECKS.update({
             "ref": "6/C12", "note": _A + "; failing re-opens (1 s back-off, give up after 5) are not explored", "technique": _T},
     "C13": {"text": "dcp.Close() as an action of Core.tla enabled in every lifecycle state the model distinguishes (open, mid-save, "
                     "after a rebalance closed the stream, during the delay, after re-open): no crash, final save makes settled "
-                    "positions durable, every stream closed, nothing delivered or requested afterwards; real dcp.close driven "
+                    "positions durable, every stream closed, nothing delivered or requested afterwards, a membership change published "
+                    "while / after the close (NotifyLate) has no effect; real dcp.close driven "
                     "through TLC schedules. Close during the re-open is known finding F8.",
             "ref": "6/C13", "note": _A + "; 'returns in bounded time' is checked as: the driver's schedule reaches CloseReturn", "technique": _T},
     "C14": {"text": "reserved-key document events (connector prefix, transaction prefix) generated by the model's server: never "
@@ -157,7 +161,7 @@ CHECKS.update({
                     "and monitored on real-code traces."
                     " Wire level: StreamReq.tla (TLC: the re-request after ROLLBACK(r) resumes on the failover branch that contains r) prints rows that the REAL couchbase client executes over a gocbcore DCP agent against the simulated node; MonWire.tla (TLC) judges the DCP_STREAM_REQ packets the node received, 64-bit fidelity rows through the stream request, the Couchbase xattr metadata backend and the file backend, and the checkpoint document keys.",
             "ref": "6/C14", "note": _A, "technique": _T},
-    "C15": {"text": "every injected failure of metadata load, seqno query, failover-log query and stream open, every flushed "
+    "C15": {"text": "every injected failure of metadata load, seqno query, failover-log query and stream open, a seqno answer that lacks an assigned vBucket, every flushed "
                     "vBucket (checkpoint ahead of the high seqno) is an environment action of Core.tla; TLC checks exhaustively "
                     "that the session is all-or-nothing, never requests beyond what the server reached and dies instead of "
                     "running; the real code runs the same schedules in child processes (a panic ends the run with Died).",
